@@ -196,8 +196,10 @@ fn generate(rng: &mut Rng, index: u64) -> ConnScenario {
     if think_s > 0 || think_sub > 0 {
         client.login_think_ns = vec![0, secs(think_s) + think_sub];
     }
+    // the authentication service may be down (a cookie that is not acceptable does not become acceptable because of that)
+    let auth_down = rng.chance(1, 8);
     let services = Services {
-        auth: Script::always(Some(0), AuthRes::Profile { name: VOUCHED_NAME.into(), uuid: format!("{:032x}", 0xabcdu128), props: vec![] }),
+        auth: Script::always(Some(0), if auth_down { AuthRes::Error } else { AuthRes::Profile { name: VOUCHED_NAME.into(), uuid: format!("{:032x}", 0xabcdu128), props: vec![] } }),
         discovery: Script::always(Some(0), DiscRes::Targets(vec![gen_target(rng, 0)])),
         ..Default::default()
     };
@@ -266,6 +268,9 @@ pub fn check(sc: &ConnScenario, out: &ConnOutcome, rep: &mut RunReport) {
             }
             if ls.is_some() && !auth_called {
                 rep.violate("verdict_required", "Login Success without consulting the authentication service".into());
+            }
+            if ls.is_some() && out.events("svc:auth", "done").any(|e| e.detail["ok"] == json!(false)) {
+                rep.violate("verdict_required", format!("the authentication service failed, yet Login Success was sent (for {:?})", ls.as_ref().map(|x| &x.0)));
             }
             if let Some((n, _)) = &ls
                 && n != VOUCHED_NAME
